@@ -12,14 +12,18 @@
    proved.  Go-memory-model data races are outside the model (each segment is atomic here); the race-detector
    build of the stress program is the evidence for that. *)
 From Coq Require Import NArith Arith Bool List Lia.
-From PcoreV Require Import Model.Conc Model.ConcLazy Proofs.ConcProofs Proofs.ConcLockProofs Proofs.ConcLazyProofs.
+From PcoreV Require Import Model.Conc Model.ConcLazy Model.ConcReg Proofs.ConcProofs Proofs.ConcLockProofs
+  Proofs.ConcLiveProofs Proofs.ConcLazyProofs Proofs.ConcRegProofs.
 Import ListNotations.
 
 (* ---- no_fault ------------------------------------------------------------------------------------------ *)
 
-(* No operation of any thread ends in a runtime fault; px.Load and HasEntry never raise an error; the only error
-   is the AttemptToRedefine of a Define whose name the program also defines in the same loader with a value that is
-   not equal (an error that every sequential order which runs the other Define first raises, too).
+(* No operation of any thread ends in a runtime fault; HasEntry never raises an error; the only errors are
+   - the AttemptToRedefine of a Define whose name the program also defines in the same loader with a value that is
+     not equal (an error that every sequential order which runs the other Define first raises, too), and
+   - the error of the instantiator, raised by a px.Load of a name for which a file based loader of the chain has a
+     file that cannot be instantiated (l_bad: syntax error, wrong or no definition) - the error that the first load
+     of that name raises in every sequential order.
    Hypothesis: the program does not explicitly Define a name in a file based loader that has a file for that very
    name (see C13_define_over_file_refuted). *)
 Theorem C13_no_fault :
@@ -28,7 +32,8 @@ Theorem C13_no_fault :
     forall t o r, In (EvRes t o r) (trace cfg p s) ->
       r <> RFault /\
       (r = RErr -> exists l n v, o = ODefine l n v /\
-                   exists t' v', In (ODefine l n v') (nth t' p []) /\ veq v' v = false).
+                   exists t' v', In (ODefine l n v') (nth t' p []) /\ veq v' v = false) /\
+      (r = RFileErr -> exists l n d, o = OLoad l n /\ In d (chain cfg l) /\ file_bad cfg d n = true).
 Proof. exact no_fault. Qed.
 Print Assumptions C13_no_fault.
 
@@ -73,6 +78,124 @@ Theorem C13_parsed_has_entry :
 Proof. exact parsed_has_entry. Qed.
 Print Assumptions C13_parsed_has_entry.
 
+(* ---- no operation blocks for ever ------------------------------------------------------------------------ *)
+
+(* The per-name mutex of fileBasedLoader.instantiate is released on every path - also when the instantiator
+   panics (a file that cannot be instantiated: the Unlock is in the deferred function, filebased.go:264) - so:
+   while some thread of the program has not finished, some thread of the program can move (no hypothesis). *)
+Theorem C13_no_deadlock :
+  forall (cfg : config) (p : prog) (s : sched),
+    all_done (exec cfg p s) (length p) = false ->
+    exists t, t < length p /\ enabled cfg (exec cfg p s) t = true.
+Proof. exact no_deadlock. Qed.
+Print Assumptions C13_no_deadlock.
+
+(* A thread that waits for the name lock waits for another thread, and that thread can move. *)
+Theorem C13_lock_holder_can_move :
+  forall (cfg : config) (p : prog) (s : sched) t l n d lk rest,
+    t_pc (st_thr (exec cfg p s) t) = PBeforeLock l n d lk rest -> enabled cfg (exec cfg p s) t = false ->
+    exists t', held (st_sh (exec cfg p s)) lk = Some t' /\ t' <> t /\ enabled cfg (exec cfg p s) t' = true.
+Proof. exact waits_for_a_running_thread. Qed.
+Print Assumptions C13_lock_holder_can_move.
+
+(* Whatever has happened so far (any schedule s), the schedule can be continued so that every thread finishes, and
+   then every operation of the program has returned exactly one result: nobody is left waiting.  (Every step of an
+   enabled thread strictly decreases that thread's remaining work, ConcLiveProofs.step_decreases, so in fact every
+   continuation that keeps scheduling enabled threads finishes.) *)
+Theorem C13_every_operation_returns :
+  forall (cfg : config) (p : prog) (s : sched),
+    exists s', all_done (exec cfg p (s ++ s')) (length p) = true /\
+               forall t, length (results_of t (trace cfg p (s ++ s'))) = length (nth t p []).
+Proof.
+  intros cfg p s. destruct (can_complete cfg p s) as [s' Hs']. exists s'. split; [exact Hs'|].
+  now apply all_results.
+Qed.
+Print Assumptions C13_every_operation_returns.
+
+(* a file that cannot be instantiated, two loads of its name, one of them queued on the name lock while the other's
+   instantiator fails: the first load escapes with the instantiator's error, the second one is released and
+   answers "not found" (the outcome of the sequential order first-then-second), the file was read once *)
+Definition cfgB : config := [mkL None false [] []; mkL (Some 0) true [(0%N, mkV 110 None)] [0%N]].
+Example C13_broken_file_waiter_released :
+  let p := [[OLoad 1 0%N]; [OLoad 1 0%N]] in
+  let st := exec cfgB p [0; 0; 0; 1; 1; 1; 1] in
+  enabled cfgB st 0 = false /\ enabled cfgB st 1 = true /\
+  trace cfgB p [0; 0; 0; 1; 1; 1; 1; 0; 0; 0; 0; 1; 1; 1; 1; 0; 0; 0] =
+    [EvParse 1 1 0%N; EvRes 1 (OLoad 1 0%N) RFileErr; EvRes 0 (OLoad 1 0%N) (RFound None)] /\
+  all_done (exec cfgB p [0; 0; 0; 1; 1; 1; 1; 0; 0; 0; 0; 1; 1; 1; 1; 0; 0; 0]) 2 = true.
+Proof. vm_compute. repeat split. Qed.
+
+(* ---- pending declarations and pcore.Do (Model/ConcReg.v) ---------------------------------------------------- *)
+
+(* Threads declare types, mappings, constructors and functions (appends to the four pending lists, each under its
+   lock) and call pcore.Do, which takes each list, replaces it by a new empty one, and binds and resolves what it took
+   outside that lock, under resolveLock; a Do is cut at the yield points of resolveResolvables.  For EVERY program
+   (any number of threads) and EVERY schedule: *)
+
+(* what was taken from a list is private to the thread that took it: an item is never taken from list l and processed
+   more often than it has been declared so far, and never from a list that its kind of declaration does not go to *)
+Theorem C13_declared_processed_at_most_once :
+  forall (p : rprog) (s : sched) (l : nat) (x : item),
+    nproc l x (rtrace p s) <= (if goes_to x l then ndecl x (rtrace p s) else 0).
+Proof. exact reg_once. Qed.
+Print Assumptions C13_declared_processed_at_most_once.
+
+(* the function of a Do finds every item that its own thread declared before resolved and usable - as in every
+   sequential order of the operations - when no declaration of the program fails to resolve.  (For an item with a
+   mapping, KG, this is about the type; the mapping lives in the context of whichever Do took it, see
+   C13_mapping_goes_to_the_taker.)  Since fix c862d91: before it, a Do that found the lists empty ran its function
+   while another thread was still binding and resolving what it had taken. *)
+Theorem C13_do_sees_own_declarations :
+  forall (p : rprog) (s : sched),
+    no_failing p ->
+    forall t obs, In (EvR t RDo (RRDone obs)) (rtrace p s) -> forall x b, In (x, b) obs -> fst x <> KG -> b = true.
+Proof. exact reg_sees_own. Qed.
+Print Assumptions C13_do_sees_own_declarations.
+
+(* resolveLock is released on every path (also when a Resolve panics: deferred Unlock): while some thread has not
+   finished some thread can move, and every schedule can be continued so that every thread finishes *)
+Theorem C13_resolve_no_deadlock :
+  forall (p : rprog) (s : sched),
+    rall_done (rexec p s) (length p) = false -> exists t, t < length p /\ renabled (rexec p s) t = true.
+Proof. exact reg_no_deadlock. Qed.
+Print Assumptions C13_resolve_no_deadlock.
+
+Theorem C13_every_do_returns :
+  forall (p : rprog) (s : sched), exists s', rall_done (rexec p (s ++ s')) (length p) = true.
+Proof. exact reg_can_complete. Qed.
+Print Assumptions C13_every_do_returns.
+
+(* thread 1 declares while thread 0 is between two steps of its resolution, thread 2 waits for the lock: everything is
+   processed once, every function sees its own declarations *)
+Example C13_declarations_nonvacuous :
+  let p := [[RDecl (KT, 0); RDecl (KC, 1); RDo]; [RDecl (KT, 2); RDecl (KF, 3); RDo]; [RDo]] in
+  let s := [0; 0; 0; 0; 2; 1; 0; 1; 0; 1; 0; 0; 2; 1; 1; 1; 1; 1; 1; 2; 2; 2; 2; 2; 1; 1; 1; 1; 1; 1] in
+  no_failing p /\ rall_done (rexec p s) 3 = true /\
+  rresults_of 0 (rtrace p s) = [RRDeclared; RRDeclared; RRDone [((KT, 0), true); ((KC, 1), true)]] /\
+  rresults_of 1 (rtrace p s) = [RRDeclared; RRDeclared; RRDone [((KT, 2), true); ((KF, 3), true)]] /\
+  map (fun x => nproc (home x) x (rtrace p s)) [(KT, 0); (KC, 1); (KT, 2); (KF, 3)] = [1; 1; 1; 1].
+Proof.
+  split; [|vm_compute; repeat split].
+  intros t n H. destruct t as [|[|[|t]]]; cbn in H; repeat (destruct H as [H|H]; [discriminate|]); try contradiction;
+    destruct t; contradiction.
+Qed.
+
+(* a declaration that cannot be resolved: the Do that takes it escapes with the panic, the lock is free again *)
+Example C13_failing_resolve_releases_the_lock :
+  let p := [[RDecl (KX, 0); RDo]; [RDecl (KT, 1); RDo]] in
+  let s := [0; 0; 0; 1; 1; 0; 0; 1; 1; 1; 1; 1; 1] in
+  renabled (rexec p [0; 0; 0; 1; 1]) 1 = false /\
+  rresults_of 0 (rtrace p s) = [RRDeclared; RRPanic] /\
+  rresults_of 1 (rtrace p s) = [RRDeclared; RRDone [((KT, 1), true)]].
+Proof. vm_compute. repeat split. Qed.
+
+(* the mapping of a px.NewGoObjectType is registered in the context of the Do that takes it - already sequentially
+   (thread 1's Do runs between thread 0's declaration and thread 0's Do): not a property of the own Do *)
+Example C13_mapping_goes_to_the_taker :
+  rresults_of 0 (rtrace [[RDecl (KG, 0); RDo]; [RDo]] [0; 1; 1; 1; 1; 1; 1; 1; 0; 0; 0; 0; 0; 0]) =
+    [RRDeclared; RRDone [((KG, 0), false)]].
+Proof. vm_compute. reflexivity. Qed.
+
 (* ---- never_half_built --------------------------------------------------------------------------------------- *)
 
 (* Every observation of a lazily cached inferred type (or key index) of a shared value, by whichever thread and
@@ -112,9 +235,9 @@ Definition v0 := mkV 0 None.
 Definition v1 := mkV 1 None.
 Definition fv := mkV 110 None.
 (* static <- A <- B *)
-Definition cfgA : config := [mkL None false []; mkL (Some 0) false []; mkL (Some 1) false []].
+Definition cfgA : config := [mkL None false [] []; mkL (Some 0) false [] []; mkL (Some 1) false [] []].
 (* static <- F, a file based loader with a file for name 0 *)
-Definition cfgF : config := [mkL None false []; mkL (Some 0) true [(0%N, fv)]].
+Definition cfgF : config := [mkL None false [] []; mkL (Some 0) true [(0%N, fv)] []].
 
 (* three threads, one of them defines: the hypotheses of no_fault and agreement hold, a load misses, another finds,
    a conflicting Define is rejected *)
